@@ -268,6 +268,198 @@ Proof.
   - vm_compute. repeat split.
 Qed.
 
+(* composition *)
+From Verif Require Compose.LogCanon.
+Module LC := Verif.Compose.LogCanon.
+
+(* 8. C15 <-> C14 (coq/Compose/LogCanon.v).  4 / 5 / 5b above are stated over histories whose best-changing step is
+      write_logs — DEFINED through Chain's Exclude, both ways — and conclude about `is_path` lists.  C14
+      (Properties/C14.v exclude_is_difference) says what Exclude returns: exactly the blocks on one chain and not on the
+      other, ascending.  Here the two are composed at statement level: neither `exclude` nor `is_path` occurs below.
+
+   8a. the bridge: an ascending list with exactly the members of the difference is unique, so C14's characterisation is an
+       equation — Exclude(c, o) = Ok l iff l is THE ascending enumeration of ancestors(c) \ ancestors(o) *)
+Theorem exclude_is_the_ascending_enumeration g gp tag adm r c o l :
+  num_of g = 0 -> reachable g gp tag adm r -> stored r c -> stored r o ->
+  (exclude r c o = Ok l <-> (forall a, In a l <-> anc r c a /\ ~ anc r o a) /\ asc l).
+Proof. intros Hg R. exact (LC.exclude_is_enum g gp r c o l (reachable_wf _ _ _ _ _ Hg R)). Qed.
+
+Theorem ascending_enumeration_is_unique (P : N -> Prop) l1 l2 :
+  (forall a, In a l1 <-> P a) /\ asc l1 -> (forall a, In a l2 <-> P a) /\ asc l2 -> l1 = l2.
+Proof. exact (LC.ascending_enum_unique P l1 l2). Qed.
+
+(* 8b. the log-writing step over ancestry (this is LC.write_logs_spec r db nb ob db', unfolded): for ANY tables whose
+       keys lie at or below old_best's height, the tables after writeLogs are
+         - the surviving rows dk: all of db if every block of old_best's chain is on the new block's chain, otherwise
+           the rows whose key lies below the LOWEST block f of old_best's chain that is not (what Truncate(f) leaves),
+         - then the rows of the blocks ln of the parent's chain that are not on old_best's chain, in ascending height,
+         - then the rows of the new block. *)
+Theorem write_logs_over_ancestry g gp tag adm r db nb ob db' :
+  num_of g = 0 -> reachable g gp tag adm r -> stored r ob -> stored r (b_parent nb) ->
+  num_of (b_id nb) = num_of (b_parent nb) + 1 -> below ((num_of ob + 1) * two35) db ->
+  write_logs r db nb ob = Some db' ->
+  exists dk ln,
+    (((forall a, ~ (anc r ob a /\ ~ anc r (b_parent nb) a)) /\ dk = db) \/
+     (exists f, ((anc r ob f /\ ~ anc r (b_parent nb) f) /\
+                 (forall a, anc r ob a /\ ~ anc r (b_parent nb) a -> num_of f <= num_of a)) /\
+                dk = mkDB (filter (fun x => er_seq x <? num_of f * two35) (db_events db))
+                          (filter (fun x => tr_seq x <? num_of f * two35) (db_transfers db)))) /\
+    ((forall a, In a ln <-> anc r (b_parent nb) a /\ ~ anc r ob a) /\ asc ln) /\
+    db_events db' = db_events dk ++ concat (map (blk_events r) ln) ++ block_events nb /\
+    db_transfers db' = db_transfers dk ++ concat (map (blk_transfers r) ln) ++ block_transfers nb.
+Proof.
+  intros Hg R So Sp. exact (LC.write_logs_meets_spec g gp r (reachable_wf _ _ _ _ _ Hg R) (reachable_wf_body _ _ _ _ _ Hg R) ob nb So Sp db db').
+Qed.
+
+(* 8c. the specification determines the tables, hence wherever writeLogs is defined it IS the specification *)
+Theorem write_logs_spec_determines_tables r db nb ob d1 d2 :
+  LC.write_logs_spec r db nb ob d1 -> LC.write_logs_spec r db nb ob d2 -> d1 = d2.
+Proof. exact (LC.write_logs_spec_functional r db nb ob d1 d2). Qed.
+
+Theorem write_logs_is_spec_where_defined g gp tag adm r db nb ob db' :
+  num_of g = 0 -> reachable g gp tag adm r -> stored r ob -> stored r (b_parent nb) ->
+  num_of (b_id nb) = num_of (b_parent nb) + 1 -> below ((num_of ob + 1) * two35) db ->
+  write_logs r db nb ob <> None ->
+  (write_logs r db nb ob = Some db' <-> LC.write_logs_spec r db nb ob db').
+Proof.
+  intros Hg R So Sp. exact (LC.write_logs_iff_spec g gp r (reachable_wf _ _ _ _ _ Hg R) (reachable_wf_body _ _ _ _ _ Hg R) ob nb So Sp db db').
+Qed.
+
+(* 8d. ... and it is undefined exactly where a sequence range check fails: the Truncate height is above 2^28-1, or Write
+       of a block of the new branch, or of the new block itself, fails (whether a Write fails does not depend on the
+       tables: `write_block b empty_db`); block number, receipt count and the two per-block log counts within
+       28 / 15 / 20 bits suffice for a Write to succeed *)
+Theorem write_logs_failure_modes g gp tag adm r db nb ob :
+  num_of g = 0 -> reachable g gp tag adm r -> stored r ob -> stored r (b_parent nb) ->
+  (write_logs r db nb ob = None <->
+   (exists f, ((anc r ob f /\ ~ anc r (b_parent nb) f) /\
+               (forall a, anc r ob a /\ ~ anc r (b_parent nb) a -> num_of f <= num_of a)) /\ max_block < num_of f) \/
+   (exists a s b, (anc r (b_parent nb) a /\ ~ anc r ob a) /\ get_block r a = Some (s, b) /\
+                  ~ (exists d', write_block b empty_db = Some d')) \/
+   ~ (exists d', write_block nb empty_db = Some d')).
+Proof.
+  intros Hg R So Sp. exact (LC.write_logs_fails_iff g gp r (reachable_wf _ _ _ _ _ Hg R) (reachable_wf_body _ _ _ _ _ Hg R) ob nb So Sp db).
+Qed.
+
+Theorem write_succeeds_within_ranges b d :
+  num_of (b_id b) <= max_block /\ lenN (b_rcs b) <= max_txi + 1 /\
+  LC.rcs_count_ev (b_rcs b) <= max_logi + 1 /\ LC.rcs_count_tr (b_rcs b) <= max_logi + 1 ->
+  exists d', write_block b d = Some d'.
+Proof. intros F. exact (proj2 (LC.write_block_writable b d) (LC.fits_writable b F)). Qed.
+
+(* 9. C15 first sentence over ancestry: after EVERY import history the two tables are exactly the rows the receipts of
+      best's ancestors prescribe, ancestor by ancestor in ascending height — for THE ascending list l of the ancestors
+      of best other than genesis (it exists, 9a; it is unique, 8a; genesis is stored without receipts and has no rows) *)
+Theorem logdb_is_ancestor_logs g gp tag r db : num_of g = 0 -> imported g gp tag r db ->
+  forall l, (forall a, In a l <-> anc r (r_best r) a /\ a <> g) -> asc l ->
+    db_events db = concat (map (blk_events r) l) /\ db_transfers db = concat (map (blk_transfers r) l).
+Proof. intros Hg I l M A. exact (LC.logdb_is_ancestor_logs g gp tag Hg r db I l (conj M A)). Qed.
+
+Theorem logdb_is_ancestor_logs_all g gp tag r db : num_of g = 0 -> imported g gp tag r db ->
+  forall l, (forall a, In a l <-> anc r (r_best r) a) -> asc l ->
+    db_events db = concat (map (blk_events r) l) /\ db_transfers db = concat (map (blk_transfers r) l).
+Proof. intros Hg I l M A. exact (LC.logdb_is_ancestor_logs_all g gp tag Hg r db I l (conj M A)). Qed.
+
+(* 9a. that list exists; through C14 it is what Exclude(best, genesis) returns *)
+Theorem ancestor_enumeration_exists g gp tag r db : num_of g = 0 -> imported g gp tag r db ->
+  exists l, (forall a, In a l <-> anc r (r_best r) a /\ a <> g) /\ asc l.
+Proof. intros Hg I. exact (LC.ancestor_enum_exists g gp tag Hg r db I). Qed.
+
+Theorem ancestor_enumeration_is_exclude_genesis g gp tag adm r h l :
+  num_of g = 0 -> reachable g gp tag adm r -> stored r h ->
+  (exclude r h g = Ok l <-> (forall a, In a l <-> anc r h a /\ a <> g) /\ asc l).
+Proof. intros Hg R. exact (LC.exclude_gen_enum g gp r h l (reachable_wf _ _ _ _ _ Hg R)). Qed.
+
+(* 9b. membership form: a row is in a table iff the receipts of a block on best's chain prescribe it *)
+Theorem logdb_rows_membership g gp tag r db : num_of g = 0 -> imported g gp tag r db ->
+  (forall x, In x (db_events db) <->
+             exists a s b, anc r (r_best r) a /\ get_block r a = Some (s, b) /\ In x (block_events b)) /\
+  (forall x, In x (db_transfers db) <->
+             exists a s b, anc r (r_best r) a /\ get_block r a = Some (s, b) /\ In x (block_transfers b)).
+Proof. intros Hg I. exact (LC.logdb_rows_membership g gp tag Hg r db I). Qed.
+
+(* 9c. order: both tables are strictly ascending in the sequence key — by 1 the lexicographic order of (block number,
+       tx index, log index) — and the rows of an ancestor carry its id and lie inside its own key range *)
+Theorem logdb_rows_ordered g gp tag r db : num_of g = 0 -> imported g gp tag r db ->
+  ev_sorted (db_events db) /\ LC.tr_sorted (db_transfers db) /\
+  (forall a, anc r (r_best r) a ->
+     (forall x, In x (blk_events r a) -> er_block x = a /\ num_of a * two35 <= er_seq x < (num_of a + 1) * two35) /\
+     (forall x, In x (blk_transfers r a) -> tr_block x = a /\ num_of a * two35 <= tr_seq x < (num_of a + 1) * two35)).
+Proof. intros Hg I. exact (LC.logdb_rows_ordered g gp tag Hg r db I). Qed.
+
+(* 9d. the genesis-rows variant of 5b over ancestry *)
+Theorem logdb_after_genesis_rows_is_ancestor_logs g gp tag d0 r db : num_of g = 0 -> below two35 d0 ->
+  imported_from g gp tag d0 r db ->
+  forall l, (forall a, In a l <-> anc r (r_best r) a /\ a <> g) -> asc l ->
+    db_events db = db_events d0 ++ concat (map (blk_events r) l) /\
+    db_transfers db = db_transfers d0 ++ concat (map (blk_transfers r) l).
+Proof. intros Hg B0 I l M A. exact (LC.logdb_after_genesis_rows_is_ancestor_logs g gp tag Hg d0 r db B0 I l (conj M A)). Qed.
+
+(* 10. the best-changing step of an import history meets 8b (its premises hold of every such step), and on the tables of
+       an import history the surviving rows are exactly the rows whose block is not on the abandoned branch *)
+Theorem imported_step_over_ancestry g gp tag r db b conf r' db' : num_of g = 0 -> imported g gp tag r db ->
+  valid_add r b conf -> write_logs r db b (r_best r) = Some db' -> add_block r b conf true = Some r' ->
+  LC.write_logs_spec r db b (r_best r) db'.
+Proof. intros Hg I. exact (LC.imported_step_meets_spec g gp tag Hg r db b conf r' db' I). Qed.
+
+Theorem kept_rows_are_off_the_old_branch g gp tag r db nb dk : num_of g = 0 -> imported g gp tag r db ->
+  stored r (b_parent nb) -> LC.kept r (r_best r) nb db dk ->
+  (forall x, In x (db_events dk) <->
+             In x (db_events db) /\ ~ (anc r (r_best r) (er_block x) /\ ~ anc r (b_parent nb) (er_block x))) /\
+  (forall x, In x (db_transfers dk) <->
+             In x (db_transfers db) /\ ~ (anc r (r_best r) (tr_block x) /\ ~ anc r (b_parent nb) (tr_block x))).
+Proof. intros Hg I. exact (LC.kept_on_canonical g gp tag Hg r db nb dk I). Qed.
+
+(* non-vacuity of 8-10 on the example history: the reorganisation step ex_r3 -> ex_r4 (best (2,1), new block (3,1) on the
+   sibling (2,2)) satisfies the premises of 8b-8d; its old branch is {(2,1)} (lowest: (2,1)), its new branch [(2,2)]; the
+   ancestors of the new best other than genesis are [(1,1); (2,2); (3,1)], the table is their rows — (2,2)'s two events —
+   and the abandoned block's row, present before the step, is gone *)
+Example ex_c15_over_ancestry :
+  (stored ex_r3 (bid 2 1) /\ stored ex_r3 (b_parent ex_b3') /\ num_of (b_id ex_b3') = num_of (b_parent ex_b3') + 1 /\
+   below ((num_of (bid 2 1) + 1) * two35) ex_db2 /\ write_logs ex_r3 ex_db2 ex_b3' (bid 2 1) = Some ex_db4) /\
+  LC.write_logs_spec ex_r3 ex_db2 ex_b3' (bid 2 1) ex_db4 /\
+  LC.lowest (LC.old_branch ex_r3 (bid 2 1) ex_b3') (bid 2 1) /\
+  LC.ascending_enum (LC.new_branch ex_r3 (bid 2 1) ex_b3') [bid 2 2] /\
+  LC.kept ex_r3 (bid 2 1) ex_b3' ex_db2 empty_db /\
+  LC.ascending_enum (fun a => anc ex_r4 (r_best ex_r4) a /\ a <> ex_g) [bid 1 1; bid 2 2; bid 3 1] /\
+  db_events ex_db4 = LC.rows_ev ex_r4 [bid 1 1; bid 2 2; bid 3 1] /\
+  db_transfers ex_db4 = LC.rows_tr ex_r4 [bid 1 1; bid 2 2; bid 3 1] /\
+  map er_block (LC.rows_ev ex_r4 [bid 1 1; bid 2 2; bid 3 1]) = [bid 2 2; bid 2 2] /\
+  In (bid 2 1) (map er_block (db_events ex_db2)) /\ ~ In (bid 2 1) (map er_block (db_events ex_db4)) /\
+  LC.fits ex_b2' /\ LC.writable ex_b3'.
+Proof.
+  pose proof (reachable_wf _ _ _ _ _ ex_g_num ex_reachable3_tip) as W3.
+  pose proof (reachable_wf_body _ _ _ _ _ ex_g_num ex_reachable3_tip) as WB3.
+  pose proof (reachable_wf _ _ _ _ _ ex_g_num ex_reachable_tip) as W4.
+  assert (So : stored ex_r3 (bid 2 1)) by (eexists; vm_compute; reflexivity).
+  assert (Sp : stored ex_r3 (b_parent ex_b3')) by (eexists; vm_compute; reflexivity).
+  assert (Hn : num_of (b_id ex_b3') = num_of (b_parent ex_b3') + 1) by (vm_compute; reflexivity).
+  assert (B : below ((num_of (bid 2 1) + 1) * two35) ex_db2)
+    by (split; intros x Hx; vm_compute in Hx; destruct Hx as [<-|[]]; vm_compute; reflexivity).
+  assert (Hw : write_logs ex_r3 ex_db2 ex_b3' (bid 2 1) = Some ex_db4) by (vm_compute; reflexivity).
+  assert (Eo : LC.ascending_enum (LC.old_branch ex_r3 (bid 2 1) ex_b3') [bid 2 1])
+    by (apply (LC.exclude_is_enum ex_g ex_gp ex_r3 (bid 2 1) (b_parent ex_b3') _ W3 So Sp); vm_compute; reflexivity).
+  assert (Lf : LC.lowest (LC.old_branch ex_r3 (bid 2 1) ex_b3') (bid 2 1)).
+  { destruct Eo as [M _]. split; [apply M; left; reflexivity|]. intros a Ha. apply M in Ha. destruct Ha as [<-|[]]. apply N.le_refl. }
+  split; [exact (conj So (conj Sp (conj Hn (conj B Hw))))|].
+  split; [exact (LC.write_logs_meets_spec ex_g ex_gp ex_r3 W3 WB3 (bid 2 1) ex_b3' So Sp ex_db2 ex_db4 Hn B Hw)|].
+  split; [exact Lf|].
+  split; [apply (LC.exclude_is_enum ex_g ex_gp ex_r3 (b_parent ex_b3') (bid 2 1) _ W3 Sp So); vm_compute; reflexivity|].
+  split; [right; exists (bid 2 1); split; [exact Lf | vm_compute; reflexivity]|].
+  split; [apply (LC.exclude_gen_enum ex_g ex_gp ex_r4 (r_best ex_r4) _ W4 (w_best _ _ _ W4)); vm_compute; reflexivity|].
+  split; [vm_compute; reflexivity|]. split; [vm_compute; reflexivity|]. split; [vm_compute; reflexivity|].
+  split; [vm_compute; left; reflexivity|].
+  split; [vm_compute; intros [H|[H|[]]]; discriminate H|].
+  split; [vm_compute; repeat split; intros H; discriminate H | eexists; vm_compute; reflexivity].
+Qed.
+
+(* non-vacuity of 9d on the genesis-rows history of ex_c15_genesis_rows: block 0's rows stay in front *)
+Example ex_c15_over_ancestry_genesis_rows :
+  db_events ex_dg4 = db_events ex_d0 ++ LC.rows_ev ex_r4 [bid 1 1; bid 2 2; bid 3 1] /\
+  db_transfers ex_dg4 = db_transfers ex_d0 ++ LC.rows_tr ex_r4 [bid 1 1; bid 2 2; bid 3 1] /\
+  length (db_events ex_d0) = 1%nat /\ length (LC.rows_ev ex_r4 [bid 1 1; bid 2 2; bid 3 1]) = 2%nat.
+Proof. vm_compute. repeat split. Qed.
+
 Print Assumptions seq_pack_inj_mono.
 Print Assumptions seq_model_is_translated.
 Print Assumptions filter_is_subsequence_events.
@@ -284,3 +476,19 @@ Print Assumptions sync_reestablishes_canonical.
 Print Assumptions sync_verify_reestablishes_canonical.
 Print Assumptions verify_accepts_canonical_prefix.
 Print Assumptions sync_verify_raises_no_false_alarm.
+Print Assumptions exclude_is_the_ascending_enumeration.
+Print Assumptions ascending_enumeration_is_unique.
+Print Assumptions write_logs_over_ancestry.
+Print Assumptions write_logs_spec_determines_tables.
+Print Assumptions write_logs_is_spec_where_defined.
+Print Assumptions write_logs_failure_modes.
+Print Assumptions write_succeeds_within_ranges.
+Print Assumptions logdb_is_ancestor_logs.
+Print Assumptions logdb_is_ancestor_logs_all.
+Print Assumptions ancestor_enumeration_exists.
+Print Assumptions ancestor_enumeration_is_exclude_genesis.
+Print Assumptions logdb_rows_membership.
+Print Assumptions logdb_rows_ordered.
+Print Assumptions logdb_after_genesis_rows_is_ancestor_logs.
+Print Assumptions imported_step_over_ancestry.
+Print Assumptions kept_rows_are_off_the_old_branch.
